@@ -616,7 +616,10 @@ func (v *TypeUsageVisitor) buildInlineStructRef(
 			names = []string{""} // anonymous/embedded
 		}
 		isEmbedded := gast.IsEmbeddedOrAnonymousField(field)
-		ann, _ := v.getAnnotations(field.Doc, nil) // inline structs have no genDecl
+		ann, err := v.getAnnotations(field.Doc, nil) // inline structs have no genDecl
+		if err != nil {
+			return nil, err
+		}
 		for _, nm := range names {
 			fMeta := metadata.FieldMeta{
 				SymNodeMeta: metadata.SymNodeMeta{
